@@ -166,6 +166,13 @@ type TypedQuery interface {
 	Close()
 }
 
+// TypedObserver is ObserverN behind a uniform interface.
+type TypedObserver interface {
+	Register(w *ecs.World)
+	Unregister(w *ecs.World)
+}
+
+var obsCtors = map[string]func(evt ecs.EventType, extra, with, without []ecs.Comp, excl bool, cb func(e ecs.Entity, ps []*int64)) TypedObserver{}
 var mapCtors = map[string]func(w *ecs.World) TypedMap{}
 var exCtors = map[string]func(w *ecs.World) TypedExchange{}
 var filterCtors = map[string]func(w *ecs.World) TypedFilter{}
